@@ -40,14 +40,14 @@ class Tree:
         }
 
 
-def gen_crate(rng, base="c", root_name=None, max_files=5, depth=3, feats=(), body=None):
+def gen_crate(rng, base="c", root_name=None, max_files=5, depth=3, feats=(), body=None, suffix=""):
     """feats: subset of {"modrs","path","inline","cfg_if","cfg_match","cfg_attr_path","decoys","pathext","samestem"}"""
     feats = set(feats)
     root_name = root_name or rng.choice(["main.rs", "lib.rs", "root.rs", "src/main.rs", "src/lib.rs"])
     t = Tree(base, root_name)
     body = body or (lambda r: gen_rust.unformatted(r, 1 + r.below(2)))
     budget = [rng.range(1, max_files) - 1]
-    names = list(MODNAMES)
+    names = [n + suffix for n in MODNAMES]
 
     def fresh():
         return names.pop(0) if names else "mz%d" % len(t.files)
